@@ -147,7 +147,7 @@ func runSelector(rp *explore.Report, tier string) {
 			}
 			selector := func(typeName, fieldName string) string { return pick[typeName+"."+fieldName] }
 			item := fmt.Sprintf("data=%d %s selector=%v", di, a.String(), pick)
-			res := rt.Execute(rt.Config{MaxSteps: 5000000, MaxClock: 1000}, func() {
+			res := rt.Execute(rt.Config{MaxSteps: 50000000, MaxClock: 10000000}, func() {
 				ctx, cancel := rt.WithCancel(context.Background())
 				defer cancel()
 				g, err := fedfix.NewGateway(ctx, datasets[di], a, selector)
@@ -197,9 +197,9 @@ func runSelector(rp *explore.Report, tier string) {
 			rp.Execs++
 			rp.Transitions += int64(res.Steps)
 			rp.AddState(res.HBFinal)
-			if res.Deadlock || len(res.Panics) > 0 || res.StepCap {
+			if res.Deadlock || len(res.Panics) > 0 || res.StepCap || res.ClockCap {
 				rp.AddViolation(&explore.Violation{Item: item, Stable: true, Signature: "c06/selector/gateway-blocks-or-panics",
-					Failures: []explore.Failure{{Clause: "request-returns", Msg: fmt.Sprintf("deadlock=%v blocked=%v stepcap=%v panics=%v", res.Deadlock, res.Blocked, res.StepCap, res.Panics)}}})
+					Failures: []explore.Failure{{Clause: "request-returns", Msg: fmt.Sprintf("deadlock=%v blocked=%v stepcap=%v clockcap=%v panics=%v", res.Deadlock, res.Blocked, res.StepCap, res.ClockCap, res.Panics)}}})
 			}
 		}
 	}
